@@ -305,6 +305,10 @@ func (s *Server) finishedRecovery(epoch uint64) (int, int, error) {
 // to invoke fsmSnapshot methods with concurrent calls to Apply.
 type fsmSnapshot struct {
 	*proto.MetadataSnapshot
+	// lastPublishedRaftIndex is the Raft index of the latest event published
+	// to the activity stream at the time of the snapshot. The PublishActivity
+	// operations that carried it are compacted away with the log.
+	lastPublishedRaftIndex uint64
 }
 
 // Persist should dump all necessary state to the WriteCloser sink and call
@@ -324,6 +328,14 @@ func (f *fsmSnapshot) Persist(sink raft.SnapshotSink) error {
 			return err
 		}
 		if _, err := sink.Write(b); err != nil {
+			return err
+		}
+
+		// Write the last published activity index after the metadata (older
+		// snapshots end here).
+		indexBuf := make([]byte, 8)
+		binary.BigEndian.PutUint64(indexBuf, f.lastPublishedRaftIndex)
+		if _, err := sink.Write(indexBuf); err != nil {
 			return err
 		}
 
@@ -390,10 +402,13 @@ func (s *Server) Snapshot() (raft.FSMSnapshot, error) {
 			Members:     protoMembers,
 		}
 	}
-	return &fsmSnapshot{&proto.MetadataSnapshot{
-		Streams: protoStreams,
-		Groups:  protoGroups,
-	}}, nil
+	return &fsmSnapshot{
+		MetadataSnapshot: &proto.MetadataSnapshot{
+			Streams: protoStreams,
+			Groups:  protoGroups,
+		},
+		lastPublishedRaftIndex: s.activity.LastPublishedRaftIndex(),
+	}, nil
 }
 
 // Restore is used to restore an FSM from a snapshot. It is not called
@@ -418,6 +433,15 @@ func (s *Server) Restore(snapshot io.ReadCloser) error {
 	if err := snap.Unmarshal(buf); err != nil {
 		return err
 	}
+	// Read the last published activity index, if the snapshot has one.
+	var lastPublishedRaftIndex uint64
+	indexBuf := make([]byte, 8)
+	if _, err := io.ReadFull(snapshot, indexBuf); err == nil {
+		lastPublishedRaftIndex = binary.BigEndian.Uint64(indexBuf)
+	} else if err != io.EOF {
+		return err
+	}
+	s.activity.SetLastPublishedRaftIndex(lastPublishedRaftIndex)
 
 	// Drop state and restore.
 	if err := s.metadata.Reset(); err != nil {
